@@ -530,7 +530,7 @@ func c12BlobFns(c *Ctx) {
 					}
 					g, path := Guarded(af.Blocks[0], r, pass, nil)
 					names = append(names, FnName(af))
-					c.Check(g && len(pass) > 0, "R5", "attributes-only-at-root:"+FnName(cmd), p.InstrPos(r), "a tree is modified only when it is the root tree", "the tree callback can modify a tree other than the root (path != \"/\"): "+path)
+					c.Check(g && nonVacuous(pass), "R5", "attributes-only-at-root:"+FnName(cmd), p.InstrPos(r), "a tree is modified only when it is the root tree", "the tree callback can modify a tree other than the root (path != \"/\"): "+path)
 				}
 			}
 		}
